@@ -154,7 +154,7 @@ class Scheduler(BaseScheduler[Job, Callable[..., Coroutine[Any, Any, None]]]):
             # raised, when `task.cancel()` in `delete_job` was run
             pass  # pragma: no cover
         else:
-            self.delete_job(job)
+            self._jobs.pop(job, None)
 
     def delete_job(self, job: Job) -> None:
         """
